@@ -95,13 +95,15 @@ def stream_doc(rng):
         lab = rng.choice(['', '', f', label: "S{rng.randrange(3)}"'])
         return f'@stream(initialCount: {rng.choice([0, 0, 1, 2])}{lab})'
     a, b = rng.sample(leafs, 2)
-    k = rng.randrange(6)
+    k = rng.choice([0, 1, 2, 2, 2, 3, 4, 5, 6, 6])
     if k == 0:
         body = f'users {st()} {{ {a} {b} }}'
     elif k == 1:
         body = f'me {{ friends {st()} {{ {a} best {{ {b} }} }} }}'
     elif k == 2:
         body = f'users {st()} {{ {a} friends {st()} {{ {b} }} }}'
+    elif k == 6:
+        body = f'users {{ {a} ... @defer(label: "D") {{ friends {st()} {{ {b} }} }} }}'
     elif k == 3:
         body = f'nnMe {{ tags {st()} roles {st()} {a} }}'
     elif k == 4:
